@@ -3,6 +3,7 @@ from __future__ import annotations
 
 import hashlib
 import importlib
+import re
 import json
 import math
 import os
@@ -361,7 +362,7 @@ def match_known(known, prop, rec):
             continue
         if k["property"] != prop:
             continue
-        if k["match"] in rec["id"]:
+        if re.search(k["match"], rec["id"]):
             return k
     return None
 
